@@ -200,6 +200,7 @@ fn parse_duration_secs(value: &str) -> Result<Duration, String> {
 
 /// Timeout settings for socket operations
 #[cfg_attr(feature = "serde", derive(Serialize, Deserialize))]
+#[cfg_attr(feature = "serde", serde(try_from = "UncheckedTimeoutSettings"))]
 #[cfg_attr(feature = "clap", derive(clap::Args))]
 #[derive(Debug, Clone, Copy, PartialEq, Eq, Hash, PartialOrd, Ord)]
 pub struct TimeoutSettings {
@@ -212,6 +213,26 @@ pub struct TimeoutSettings {
     /// Number of retries per request
     #[cfg_attr(feature = "clap", arg(long, default_value = "0"))]
     retries: usize,
+}
+
+/// Deserialized form of [TimeoutSettings] before validation.
+#[cfg(feature = "serde")]
+#[derive(Deserialize)]
+struct UncheckedTimeoutSettings {
+    connect: Option<Duration>,
+    read: Option<Duration>,
+    write: Option<Duration>,
+    retries: usize,
+}
+
+#[cfg(feature = "serde")]
+impl TryFrom<UncheckedTimeoutSettings> for TimeoutSettings {
+    type Error = crate::GDError;
+
+    /// Deserialized settings obey the same rules as [TimeoutSettings::new].
+    fn try_from(value: UncheckedTimeoutSettings) -> GDResult<Self> {
+        Self::new(value.read, value.write, value.connect, value.retries)
+    }
 }
 
 impl TimeoutSettings {
